@@ -262,3 +262,32 @@ func (i *interpreter) protoEqual(t types.Type, x, y value, depth int) value {
 	}
 	return i.eqDyn(t, x, y)
 }
+
+func init() {
+	extraIntrinsics = append(extraIntrinsics, func(m map[string]Intrinsic) {
+		mk := func(size int) Intrinsic {
+			return func(fr *frame, args []value) value {
+				pkg := fr.i.prog.ImportedPackage(RepoModule + "/internal/verifmodels")
+				if pkg == nil {
+					panic(unsupported("verifmodels package not loaded (hash model)"))
+				}
+				return fr.i.call(fr, fr.callpos, pkg.Func("NewModelHash"), []value{size})
+			}
+		}
+		m["crypto/sha256.New"] = mk(32)
+		m["crypto/sha1.New"] = mk(20)
+		m["crypto/md5.New"] = mk(16)
+		m["crypto/sha512.New"] = mk(64)
+		m["crypto/sha512.New384"] = mk(48)
+		m["encoding/hex.EncodeToString"] = func(fr *frame, args []value) value {
+			const digits = "0123456789abcdef"
+			src := args[0].([]value)
+			out := make([]byte, 0, 2*len(src))
+			for _, e := range src {
+				b := fr.i.concByte(e)
+				out = append(out, digits[b>>4], digits[b&15])
+			}
+			return string(out)
+		}
+	})
+}
